@@ -247,6 +247,17 @@ fn states(tier: &str) -> Vec<State> {
         }
     }
     out.extend(three_namespace_chains(tier));
+    // a base that shares its name with a global element, next to a referrer of that element, in every
+    // declaration order (C09's families; here judged for the derived type's member list): a lookup
+    // cache that forgets the symbol space hands the ELEMENT to `base=`
+    out.extend(super::c09::two_referrer_states().into_iter().map(|(mut s, _)| {
+        s.label = format!("chain same-name: {}", s.label);
+        s
+    }));
+    out.extend(super::c09::recursive_same_name_states().into_iter().map(|(mut s, _)| {
+        s.label = format!("chain same-name: {}", s.label);
+        s
+    }));
     // long one-file chains declared derived-first: every base is read ahead inside the reading of its derived type
     for d in [17usize, 33] {
         let chain: Vec<Link> = (0..=d).map(|i| Link { in_b: false, before_base: i > 0, content: "attributes" }).collect();
@@ -321,7 +332,7 @@ pub fn check(tier: &str) -> i32 {
         let ex = r.extract.as_ref().unwrap().as_ref().unwrap();
         let model = RefModel::build(&st.set);
         // judge the chain types (and Fan): the seed's own types are C02's business
-        let only = |c: &crate::reference::ExpComp| c.name.starts_with('T') && c.name.len() <= 3 || c.name == "Fan";
+        let only = |c: &crate::reference::ExpComp| c.name.starts_with('T') && c.name.len() <= 3 || c.name == "Fan" || c.name == "BaseUser";
         let vs = compare_api(ex, &model, &ApiCheck { property: "C08", scope: "extension-forests", depth: st.depth, member_namespaces: true }, Some(&only));
         if vs.is_empty() {
             conformant += 1;
